@@ -28,7 +28,7 @@ func c10Rekey(c *eng.Ctx) {
 	var calls [][]ssa.CallInstruction
 	okAll := true
 	for _, s := range steps {
-		cs := eng.Calls(f, s.pat)
+		cs := kCalls(f, s.pat)
 		if len(cs) == 0 {
 			okAll = false
 			c.Violation(f, "durable-write-step{"+s.desc+"}", f.Pos(), "the rekey no longer performs "+s.desc+": the frozen write sequence changed; re-read and re-derive the crash analysis", nil)
@@ -46,7 +46,7 @@ func c10Rekey(c *eng.Ctx) {
 		// the shamir KEK stored is the new seal key, under the constant path
 		c.Clause("R5", "C10.6")
 		for _, p := range calls[2] {
-			a := p.Common().Args
+			a := kArgs(p)
 			ent := a[len(a)-1]
 			for _, v := range eng.StructLitField(ent, "Key") {
 				c.Prov(f, "key of the shamir KEK record", p, v, `^const:"core/shamir-kek"$`)
@@ -56,10 +56,10 @@ func c10Rekey(c *eng.Ctx) {
 			}
 		}
 		for _, p := range calls[1] {
-			c.Prov(f, "root key rotated in", p, p.Common().Args[len(p.Common().Args)-1], `GenerateKey#0$`)
+			c.Prov(f, "root key rotated in", p, kArgs(p)[len(kArgs(p))-1], `GenerateKey#0$`)
 		}
 		for _, p := range calls[0] {
-			s := eng.ExprDeep(p.Common().Args[len(p.Common().Args)-1])
+			s := eng.ExprDeep(kArgs(p)[len(kArgs(p))-1])
 			if strings.Contains(s, "GenerateKey") || strings.Contains(s, "slicelit") {
 				c.OK(f, "stored key = the new root key", p.Pos(), s)
 			}
@@ -68,10 +68,10 @@ func c10Rekey(c *eng.Ctx) {
 	// atomic envelope
 	c.Clause("R13", "C10.6")
 	envelope := ""
-	if len(eng.Calls(f, `BeginTx$`)) > 0 {
+	if len(kCalls(f, `BeginTx$`)) > 0 {
 		envelope = "storage transaction"
 	}
-	for _, cl := range eng.Calls(f, `(?i)rekey.*(marker|journal|intent)|(?i)(marker|journal|intent).*rekey`) {
+	for _, cl := range kCalls(f, `(?i)rekey.*(marker|journal|intent)|(?i)(marker|journal|intent).*rekey`) {
 		_ = cl
 		envelope = "intent marker"
 	}
@@ -186,8 +186,8 @@ func c10UpgradePath(c *eng.Ctx, cu, ck *ssa.Function) {
 	var uses []keyUse
 	collect := func(f *ssa.Function, what, calleePat string, argIdx func(a []ssa.Value) ssa.Value, floor int) []keyUse {
 		var out []keyUse
-		for _, g := range eng.Calls(f, calleePat) {
-			k := argIdx(g.Common().Args)
+		for _, g := range kCalls(f, calleePat) {
+			k := argIdx(kArgs(g))
 			format, ops, ok := c10Sprintf(k)
 			if !ok || len(ops) != 2 {
 				c.Clause("R7", "C10.5")
@@ -264,24 +264,24 @@ func c10UpgradePath(c *eng.Ctx, cu, ck *ssa.Function) {
 		}
 	}
 	for _, u := range writes {
-		a := u.at.(ssa.CallInstruction).Common().Args
+		a := kArgs(u.at.(ssa.CallInstruction))
 		site := "upgrade key encrypted under the term it is filed under"
 		if eng.ExprDeep(c10StripConv(a[2])) == eng.ExprDeep(c10StripConv(u.ops[1])) {
 			c.OK(u.fn, site, u.at.Pos(), eng.ExprDeep(a[2]))
 		} else {
 			c.Violation(u.fn, site, u.at.Pos(), "encrypted under term "+eng.ExprDeep(a[2])+" but filed under "+eng.ExprDeep(u.ops[1]), nil)
 		}
-		for _, ae := range eng.Calls(u.fn, `barrier\.\(\*AESGCMBarrier\)\.aeadForTerm$`) {
+		for _, ae := range kCalls(u.fn, `barrier\.\(\*AESGCMBarrier\)\.aeadForTerm$`) {
 			site := "AEAD of the term the upgrade key is filed under"
-			if x := ae.Common().Args[1]; eng.ExprDeep(c10StripConv(x)) == eng.ExprDeep(c10StripConv(u.ops[1])) {
+			if x := kArgs(ae)[1]; eng.ExprDeep(c10StripConv(x)) == eng.ExprDeep(c10StripConv(u.ops[1])) {
 				c.OK(u.fn, site, ae.Pos(), eng.ExprDeep(x))
 			} else {
 				c.Violation(u.fn, site, ae.Pos(), "AEAD of term "+eng.ExprDeep(x)+" but filed under "+eng.ExprDeep(u.ops[1]), nil)
 			}
 		}
 		// the entry stored carries the key that was encrypted for (the AAD)
-		for _, p := range eng.Calls(u.fn, `<physical\.Backend>\.Put$`) {
-			pa := p.Common().Args
+		for _, p := range kCalls(u.fn, `<physical\.Backend>\.Put$`) {
+			pa := kArgs(p)
 			for _, kv := range eng.StructLitField(pa[len(pa)-1], "Key") {
 				site := "upgrade entry stored under the key it was encrypted for"
 				if kv == a[1] {
@@ -348,7 +348,7 @@ func c10CoreUnseal(c *eng.Ctx) {
 		c.Floor(nil, "call sites of "+t.what+" in package vault", len(sites), t.floor)
 		for _, s := range sites {
 			fn := eng.FuncName(s.Fn)
-			a := s.Call.Common().Args
+			a := kArgs(s.Call)
 			key := a[len(a)-1]
 			sr, ok := t.sites[fn]
 			c.Clause("R1", "C10.3")
@@ -364,8 +364,8 @@ func c10CoreUnseal(c *eng.Ctx) {
 				continue
 			}
 			c.Clause("R2", "C10.3")
-			prod := eng.Calls(s.Fn, sr.producer)
-			g := eng.GCallOK(s.Fn, sr.producer)
+			prod := kCalls(s.Fn, sr.producer)
+			g := nfGCallOK(s.Fn, sr.producer)
 			sink := []ssa.Instruction{s.Call}
 			c.Cut(s.Fn, t.what, sink, eng.Or(eng.Guard{Desc: g.Desc, Edges: g.Edges}, eng.Guard{Desc: "key tested non-empty", Edges: c10NonEmptyEdges(s.Fn, key)}), nil)
 			site := "on{" + sr.producer + " failed} no " + t.what
